@@ -288,7 +288,7 @@ impl Property for C08 {
         }
     }
     fn rule(&self) -> &'static str {
-        "corpus grid cells and generated programs with LF/CRLF/mixed terminators, blank-line runs and tabs, x newline_style x blank_lines_upper/lower_bound 0..3 x tab_spaces x hard_tabs x width; oracle: byte scan of the emitted text (single final terminator, no leading blank line, terminators of the required style, metamorphic Unix<->Windows equality, blank-line bounds between list elements located by an independent parse, indentation character classes); judged when rustfmt emits text without a parse error; non-trivial = the input had CRLF/mixed terminators, a blank-line run above the bound or tab indentation, and the output differs from the input"
+        "corpus grid cells and generated programs with LF/CRLF/mixed terminators, blank-line runs, tabs and (one in six) a comment holding a carriage return that is not part of a terminator, x newline_style x blank_lines_upper/lower_bound 0..3 x tab_spaces x hard_tabs x width; oracle: byte scan of the emitted text (single final terminator, no leading blank line, terminators of the required style, metamorphic Unix<->Windows equality, blank-line bounds between list elements located by an independent parse, indentation character classes); judged when rustfmt emits text without a parse error; non-trivial = the input had CRLF/mixed terminators, a blank-line run above the bound or tab indentation, and the output differs from the input"
     }
     fn assumptions(&self) -> Vec<&'static str> {
         vec![
@@ -332,6 +332,12 @@ impl Property for C08 {
         }
         if nl != Newlines::Lf {
             text = relayout(&text, c, 0, nl);
+        }
+        // a carriage return that is not part of a terminator, inside a comment at the top or the
+        // bottom of the file (followed by further lines)
+        if c.chance(1, 6) {
+            let cm = *c.pick(&["// note\rcarriage\n", "/* a\rb */\n", "// x\r\ry\n"]);
+            text = if c.flip() { format!("{cm}{text}") } else { format!("{text}{cm}fn after_the_comment() {{}}\n") };
         }
         let space = ConfSpace {
             min_edition: p.min_edition,
